@@ -228,13 +228,12 @@ def useLimitLoop : List SeqItem → Option JoinKind → Bool → Bool
     useLimitLoop rest j u'
   | .join k :: rest, _, u => useLimitLoop rest (some k) u
 
-/-- `check_use_limit`, with Python's precedence: `having is None or (group_by is None and limit is not None)` -/
-def checkUseLimit (hasHaving hasGroupBy hasLimit : Bool) (seq : List SeqItem) : Bool :=
-  if (!hasHaving) || ((!hasGroupBy) && hasLimit) then useLimitLoop seq none true else false
-
-/-- what was presumably intended: `having is None and group_by is None and limit is not None` -/
-def checkUseLimitIntended (hasHaving hasGroupBy hasLimit : Bool) (seq : List SeqItem) : Bool :=
-  if (!hasHaving) && (!hasGroupBy) && hasLimit then useLimitLoop seq none true else false
+/-- `check_use_limit` (after repo commit 1052add): LIMIT / ORDER BY may go into the first fetch only if the query has no
+HAVING, no GROUP BY, no DISTINCT and no aggregate target (the fragment's `groupBy` flag stands for all of the last
+three: its grouped form is `SELECT t0.x, count(*) … GROUP BY t0.x`); whether a LIMIT exists is not tested (without one
+there is nothing to copy).  The join-kind loop is unchanged. -/
+def checkUseLimit (hasHaving hasGroupBy _hasLimit : Bool) (seq : List SeqItem) : Bool :=
+  if (!hasHaving) && (!hasGroupBy) then useLimitLoop seq none true else false
 
 /-! ## the two-table fragment: query, plan skeleton, reference semantics, plan execution
 
@@ -345,9 +344,10 @@ def JoinKind.isLeft : JoinKind → Bool
   | .leftOuter => true
   | _ => false
 
-/-- LIMIT is either not pushed, or pushed below a LEFT join with nothing left to filter or group afterwards -/
+/-- LIMIT is either not pushed, or pushed below a LEFT join with nothing left to filter afterwards (a grouped query
+never gets the pushdown any more) -/
 def limitSound (q : Q2) : Bool :=
-  (plan q).limit0.isNone || (q.kind.isLeft && whereLeftOnly q.w && !q.groupBy && !q.having)
+  (plan q).limit0.isNone || (q.kind.isLeft && whereLeftOnly q.w)
 
 /-- the exact (decidable) hypothesis of `C08_partial_model` -/
 def planSound (q : Q2) : Bool := nullSafe q && limitSound q
